@@ -59,7 +59,7 @@ PROPS = {
     },
     "C06": {
         "harness": [{"name": "c06"}],
-        "n_quick": 70, "n_thorough": 1500, "known_for": ["C01", "C04", "C06", "C15", "C14", "C03", "C05"],
+        "n_quick": 140, "n_thorough": 1500, "known_for": ["C01", "C04", "C06", "C15", "C14", "C03", "C05"],
         "assumptions": ["downstream services are spec-conformant executors over their own schema (simulators, checked against Gql/RefExec.v per request)",
                         "gqlparser's validation of client queries is taken as given (only validated operations are emitted)"] + ["the Go scheduler between 'response read' and 'result sent' is not controlled by the harness; the transition system covers those interleavings"],
         "partial": "only response-completion order is forced by the harness (gating transport with a settle window); the merge-order theorems take the independence of causally unrelated results as a hypothesis about the planner, which the recorded finding KF-key-clash-across-types refutes for one query shape; the ghost ids of the transition system and the result records of the merge model are related by convention, not by a theorem",
